@@ -391,6 +391,11 @@ class Serializer:
                 'Measurement gates for IonQ API cannot have a key with a ascii unit'
                 f'or record separator in it. Key was {key}'
             )
+        if any(gate.full_invert_mask()) or gate.confusion_map:
+            raise ValueError(
+                'Measurement gates for IonQ API cannot have an invert_mask or confusion_map. '
+                f'Gate was {gate!r}'
+            )
         return {'gate': 'meas', 'key': key, 'targets': ','.join(str(t) for t in targets)}
 
     def _near_mod_n(self, e: float | sympy.Expr, t: float, n: float) -> bool:
